@@ -2,6 +2,7 @@ package props
 
 import (
 	"fmt"
+	"strconv"
 	"strings"
 
 	"github.com/glycerine/zygomys/v9/zygo"
@@ -326,6 +327,72 @@ func c05hostCases(c *engine.Ctx, only string) {
 	}
 }
 
+// c05repeated: the same failure many times over on one interpreter (cleared after each, as the REPL does), then the
+// battery: nothing may accumulate across failed evaluations.
+func c05repeated(c *engine.Ctx, only string) {
+	big := func(last string) string {
+		var sb strings.Builder
+		sb.WriteString("(list")
+		for i := 0; i < 120; i++ {
+			sb.WriteString(" " + strconv.Itoa(i))
+		}
+		return sb.String() + " " + last + ")"
+	}
+	type rep struct {
+		name, form string
+		times      int
+	}
+	reps := []rep{
+		{"compare-long-lists", "(== " + big("1") + " " + big(`"a"`) + ")", 400}, {"compare-kinds", `(< 1 "a")`, 2000}, {"compare-arrays", `(== [1 [2 [3 "x"]]] [1 [2 [3 4]]])`, 2000},
+		{"host-error", `(f 1 (fail 0))`, 500}, {"unbound", `(undefinedfn 1)`, 500}, {"compile-error", `(let)`, 500}, {"type-error", `(+ 1 "a")`, 500}, {"index", `(aget [1] 5)`, 500},
+		{"missing-key", `(hget (hash) a:)`, 500}, {"in-loop", `(for [(def i 0) (< i 3) (set i (+ i 1))] (let [q i] (fail 0)))`, 500}, {"parse-error", `(+ 1 (`, 300},
+		{"self-containing-json", `(begin (def cy [0]) (aset cy 0 cy) (json cy))`, 3}, {"self-containing-compare", `(begin (def cy [0]) (aset cy 0 cy) (== cy cy))`, 3},
+		{"deep-recursion", `(begin (defn dr [n] (+ 1 (dr (+ n 1)))) (dr 0))`, 3},
+	}
+	for _, rp := range reps {
+		w := "REP|" + rp.name
+		if !(only == "" && c.Mine() || only == w) {
+			continue
+		}
+		c.Begin(w)
+		tr := zy.NewTraced(false)
+		tr.Run(layout(c02prelude(), 0))
+		tr.Run(`(def counter 0) (defn bump [] (set counter (+ counter 1)))`)
+		viol := func(clause, detail string) { c.Violation(clause, "C05/repeated-"+clause+"/"+rp.name, w, detail) }
+		bad := false
+		for i := 0; i < rp.times && !bad; i++ {
+			zygo.VerifSetStepBudget(200000)
+			r := tr.Run(rp.form)
+			c.Beat()
+			switch {
+			case r.Panic != "":
+				viol("panic", fmt.Sprintf("repetition %d: %s", i+1, r.Panic))
+				bad = true
+			case r.Err == "":
+				viol("error-swallowed", fmt.Sprintf("repetition %d of %s returned %s", i+1, clipS(rp.form, 80), r))
+				bad = true
+			}
+			tr.Env.Clear()
+		}
+		zygo.VerifSetStepBudget(500000)
+		d := tr.Env.VerifDepths()
+		if d.Data != 0 || d.Scope != 1 || d.Addr != 0 || d.Loop != 0 {
+			viol("not-at-rest", fmt.Sprintf("after %d failures: data=%d scope=%d addr=%d loop=%d", rp.times, d.Data, d.Scope, d.Addr, d.Loop))
+		}
+		for _, p := range [][2]string{{`(== (list 1 2 (list 3)) (list 1 2 (list 3)))`, "true"}, {`(< 1 2)`, "true"}, {`(== [1 [2]] [1 [2]])`, "true"}, {`(bump)`, "1"}, {`(+ 1 2)`, "3"}, {`(f 10 3)`, "7"}, {`(fact 3)`, "6"},
+			{`(raw2str (json (hash a: [1 [2]])))`, `"{\"Atype\":\"hash\", \"a\":[1, [2]], \"zKeyOrder\":[\"a\"]}"`}, {``, "nil"},
+			{`(begin (def z 0) (for [(def i 0) (< i 5) (set i (+ i 1))] (cond (== i 2) (break) nil) (set z (+ z 1))) z)`, "2"}} {
+			r := tr.Run(p[0])
+			if r.Short() != p[1] {
+				viol("followup", fmt.Sprintf("after %d repetitions of the failing %s, %q gives %s, want %s", rp.times, clipS(rp.form, 60), p[0], r, p[1]))
+				break
+			}
+		}
+		tr.Env.Close()
+		c.Outcome("rep|" + rp.name)
+	}
+}
+
 func c05staticCase(c *engine.Ctx, w, text, key string) {
 	c.Begin(w)
 	tr := zy.NewTraced(false)
@@ -367,7 +434,7 @@ func init() {
 		Level: "fault_enumeration",
 		Rule: "fault points = calls of the host function h inside programs of the C02 grammar (+ lazy forcing, deep/tail recursion, loops in functions): default run counts N calls, then every k<=N x {returned error, Go panic in the builtin} is re-run on a fresh interpreter " +
 			"(thorough: + a second failing evaluation during the follow-ups); oracle = reference evaluator run with the same fault: result, trace, stacks at rest, and a 19-item follow-up battery; " +
-			"plus statically placed failures: 14 malformed forms in every hole of every context, 23 unparsable texts (8 after complete forms, 15 left unfinished two or more brackets deep), and 11 failing evaluations made by the host through the Go API (SourceStream, Apply, LoadString+Run) followed by a 9-item battery; distinct_nontrivial = distinct (shape, fault, trace, battery) tuples with k>0",
+			"plus statically placed failures: 14 malformed forms in every hole of every context, 23 unparsable texts (8 after complete forms, 15 left unfinished two or more brackets deep), and 11 failing evaluations made by the host through the Go API (SourceStream, Apply, LoadString+Run) followed by a 9-item battery; 14 failing forms each repeated 3..2000 times on one interpreter, then a 10-item battery (nothing accumulates across failures); distinct_nontrivial = distinct (shape, fault, trace, battery) tuples with k>0",
 		Assumptions: []string{"R1 keeps the global effects completed before the fault, which is the specification of 'definitions completed before the failure intact'",
 			"for statically placed failures only follow-ups independent of partial execution are judged"},
 		Run: func(c *engine.Ctx) {
@@ -396,8 +463,16 @@ func init() {
 			})
 			c05static(c, all)
 			c05hostCases(c, "")
+			c05repeated(c, "")
 		},
 		Replay: func(c *engine.Ctx, w string) {
+			if strings.HasPrefix(w, "REP|") {
+				c05repeated(c, w)
+				for i := range c.Viol {
+					c.Viol[i].Key = "*"
+				}
+				return
+			}
 			if strings.HasPrefix(w, "HOST|") {
 				c05hostCases(c, w)
 				for i := range c.Viol {
